@@ -363,6 +363,81 @@ fn walk_at(i: usize, cfg: &Cfg, log: &mut Log) {
   }
 }
 
+/// the label the enumerated months give civil day n (None in the listed reform eras and where months do not tile)
+fn label_of_day(n: i64) -> Option<(LM, i64)> {
+  let seq = lunar_seq();
+  if cal::reform_era_near(n) || cal::reform_era_near(n + 40) {
+    return None;
+  }
+  let k = seq.months.partition_point(|lm| lm.first <= n);
+  if k == 0 {
+    return None;
+  }
+  let lm = seq.months[k - 1];
+  if n >= lm.first + lm.days || [8i64, 9, 23, 24, 25, 239, 240].contains(&lm.y) {
+    return None;
+  }
+  Some((lm, n - lm.first + 1))
+}
+
+/// one history operation on civil day n
+fn history_op(n: i64, rng: &mut Rng) -> (String, Vec<String>, u64) {
+  let name = cal::fmt_dn(n);
+  let (lm, d) = match label_of_day(n) {
+    Some(x) => x,
+    None => return (format!("skip({})", name), vec![], 0),
+  };
+  let want = (lm.y, lm.m, d);
+  let mut bad = vec![];
+  match rng.below(6) {
+    0 | 1 => {
+      let l = sd_of_dn(n).get_lunar_day();
+      let got = (lymd(&l), dn_of(&l.get_solar_day()), l.get_lunar_month().get_day_count() as i64);
+      if got != (want, Some(n), lm.days) {
+        bad.push(format!("lunar {} back {:?} month length {}, expected {} back {} length {}", fmt_lymd(got.0), got.1.map(cal::fmt_dn), got.2, fmt_lymd(want), name, lm.days));
+      }
+      (format!("to-lunar({})", name), bad, 1)
+    }
+    2 | 3 => {
+      let l = LunarDay::from_ymd(lm.y as isize, lm.m as isize, d as usize);
+      let s = l.get_solar_day();
+      let got = (dn_of(&s), lymd(&s.get_lunar_day()));
+      if got != (Some(n), want) {
+        bad.push(format!("civil {:?} back {}, expected {} back {}", got.0.map(cal::fmt_dn), fmt_lymd(got.1), name, fmt_lymd(want)));
+      }
+      (format!("to-civil({})", fmt_lymd(want)), bad, 1)
+    }
+    4 => {
+      // a day the month does not have, then one it has
+      let refused_day = refused(|| LunarDay::new(lm.y as isize, lm.m as isize, (lm.days + 1) as usize).is_ok());
+      let refused_month = lm.m > 0 && lunar_seq().leap[lm.y as usize] != lm.m && refused(|| LunarDay::new(lm.y as isize, -lm.m as isize, 1).is_ok());
+      let ok = LunarDay::new(lm.y as isize, lm.m as isize, d as usize).map(|l| dn_of(&l.get_solar_day()));
+      if !refused_day || (lm.m > 0 && lunar_seq().leap[lm.y as usize] != lm.m && !refused_month) || ok != Ok(Some(n)) {
+        bad.push(format!("day {} refused={} then {:?}, expected refused then {}", lm.days + 1, refused_day, ok, name));
+      }
+      (format!("refuse-then-accept({})", fmt_lymd(want)), bad, 1)
+    }
+    _ => {
+      let o = crate::history::related_day(rng, n);
+      match label_of_day(o) {
+        Some((om, od)) => {
+          let l1 = LunarDay::from_ymd(lm.y as isize, lm.m as isize, d as usize);
+          let l2 = LunarDay::from_ymd(om.y as isize, om.m as isize, od as usize);
+          let h1 = LunarHour::from_ymd_hms(lm.y as isize, lm.m as isize, d as usize, 23, 59, 59);
+          let h2 = LunarHour::from_ymd_hms(om.y as isize, om.m as isize, od as usize, 0, 0, 0);
+          let got = (l1.is_before(l2.clone()), l1.is_after(l2), h1.is_before(h2.clone()), h1.is_after(h2.clone()), dn_of(&h2.get_solar_time().get_solar_day()));
+          let want_o = (n < o, n > o, n < o, n >= o, Some(o));
+          if got != want_o {
+            bad.push(format!("{:?}, expected {:?}", got, want_o));
+          }
+          (format!("order({}, {})", fmt_lymd(want), fmt_lymd((om.y, om.m, od))), bad, 1)
+        }
+        None => ("order(skip)".into(), bad, 0),
+      }
+    }
+  }
+}
+
 pub fn run(cfg: &Cfg) -> (Log, Meta) {
   crate::util::set_thread_cap(6);
   let mut log = Log::new();
@@ -388,6 +463,10 @@ pub fn run(cfg: &Cfg) -> (Log, Meta) {
   let stride = cfg.tier.pick(6usize, 1usize);
   let widx: Vec<usize> = (0..seq.months.len()).filter(|i| i % stride == (cfg.seed as usize) % stride || seq.months[*i].m < 0 && i % 2 == 0).collect();
   log.merge(par_range(widx.len(), 64, |i, l| walk_at(widx[i], cfg, l)));
+  // 5. conversions on related days on one thread
+  let nh = cfg.tier.pick(30_000usize, 500_000usize);
+  log.merge(par_range(nh, 100, |i, l| crate::history::day_walk("C02", "a sequence of conversions on related days on one thread", i, cfg.seed, FIRST + 400, LAST - 400, l, history_op)));
+  log.floor("history.answers_judged", cfg.tier.pick(250_000, 4_000_000));
   // out-of-range years are refused (after the valid-domain sweep, see DESIGN section 2)
   for y in [-2i64, -3, 10000, 10001] {
     log.ev(1);
@@ -412,10 +491,12 @@ pub fn run(cfg: &Cfg) -> (Log, Meta) {
   log.floor("walk.stepped_values_judged", cfg.tier.pick(500_000, 4_000_000));
   let meta = Meta {
     rule: format!(
-      "civil side exhaustive (all 3,652,061 dates: get_lunar_day, back, successor relation to the previous day); ordering at every one of the {} months (last/first, random days of m, m+1, m+2, same month, a far partner, and for every leap month all ordered pairs of {{regular, leap, next}} x 3 day choices; LunarHour order on every 16th boundary); lunar side: every accepted (year, month, day) of {} lunar years round-tripped and day 0 / day_count+1 / day 31 / month 0, +-13, +-14 / every leap month the year lacks / years -2,-3,10000,10001 refused; stepping: in {} months a day-by-day LunarDay::next chain through the month (values first answer a drawn subset of their getters), a backward chain, and jumps of -35..35 days from warmed values built by label and handed out by a civil day - label, civil date, sexagenary-day view and round trip of each stepped value vs the counted calendar. Non-trivial = leap-month days, month-boundary transitions, leap-twin pairs, refusal probes (counted).",
+      "civil side exhaustive (all 3,652,061 dates: get_lunar_day, back, successor relation to the previous day); ordering at every one of the {} months (last/first, random days of m, m+1, m+2, same month, a far partner, and for every leap month all ordered pairs of {{regular, leap, next}} x 3 day choices; LunarHour order on every 16th boundary); lunar side: every accepted (year, month, day) of {} lunar years round-tripped and day 0 / day_count+1 / day 31 / month 0, +-13, +-14 / every leap month the year lacks / years -2,-3,10000,10001 refused; stepping: in {} months a day-by-day LunarDay::next chain through the month (values first answer a drawn subset of their getters), a backward chain, and jumps of -35..35 days from warmed values built by label and handed out by a civil day - label, civil date, sexagenary-day view and round trip of each stepped value vs the counted calendar; histories: {} seeded single-thread sequences of 6..16 conversions (civil to lunar and back, lunar label to civil and back, a refused day / leap label then a valid one, order of two related dates as days and as 23:59:59 / 00:00:00 hours) - {}. Non-trivial = leap-month days, month-boundary transitions, leap-twin pairs, refusal probes (counted).",
       seq.months.len(),
       years.len(),
-      widx.len()
+      widx.len(),
+      nh,
+      crate::history::WALK_TEXT
     ),
     assumptions: vec!["chronological order of lunar dates = order of first_julian_day + day - 1 as reported by the library; equal to civil order wherever months tile (C03)".into(), "Err and panic both count as refusal".into()],
     exhaustive: cfg.tier == Tier::Thorough,
